@@ -38,9 +38,9 @@ theorem C07_dispatch_partial_closed (st : St) (id r : Nat) (hs : st.stopped = fa
 /-- **C07_keys** — registering a route gives it a fresh id and never changes the route of an existing id
 (so routes registered concurrently — the proxy mutex serialises them — do not disturb one another) -/
 theorem C07_keys (st : St) (r : Nat) (q : List RMsg) (hs : st.stopped = false) (hq : st.msgq = .addRoute r :: q)
-    (hfresh : Fresh st) (id : Nat) (hid : id < st.nextId) :
+    (hns : ∀ m ∈ q, ∀ c, m ≠ .shutdown c) (hfresh : Fresh st) (id : Nat) (hid : id < st.nextId) :
     routeOf (step fixed st .wake) id = routeOf st id ∧ routeOf (step fixed st .wake) st.nextId = some r :=
-  step_add_preserves st r q hs hq hfresh id hid
+  step_add_preserves st r q hs hq hns hfresh id hid
 
 /-- freshness is an invariant of every run from the initial state, for any event stream -/
 theorem C07_fresh (es : List Ev) : Fresh (run fixed Router.init es) := by
